@@ -154,8 +154,8 @@ def roundTripDomain : Frame → Bool
       && ranges.all (fun r => r.2 < 2 ^ 62) && e0 < 2 ^ 62 && e1 < 2 ^ 62 && ce < 2 ^ 62 && d < 2 ^ 63
   | .resetStream sid ec fs rs => sid < 2 ^ 62 && ec < 2 ^ 62 && fs < 2 ^ 62 && rs ≤ fs
   | .stopSending sid ec => sid < 2 ^ 62 && ec < 2 ^ 62
-  | .crypto off _ => off < 2 ^ 62
-  | .newToken tok => !tok.isEmpty
+  | .crypto off data => off < 2 ^ 62 && data.length < 2 ^ 62
+  | .newToken tok => !tok.isEmpty && tok.length < 2 ^ 62
   | .stream sid off data fin _ =>
     sid < 2 ^ 62 && off + data.length ≤ 2 ^ 62 - 1 && data.length ≤ maxPacketBufferSize && (!data.isEmpty || fin)
   | .maxData v => v < 2 ^ 62
@@ -168,8 +168,8 @@ def roundTripDomain : Frame → Bool
   | .retireConnectionID seq => seq < 2 ^ 62
   | .pathChallenge d => d.length = 8
   | .pathResponse d => d.length = 8
-  | .connectionClose isApp ec ft _ => ec < 2 ^ 62 && (isApp || ft < 2 ^ 62) && (!isApp || ft = 0)
-  | .datagram _ _ => true
+  | .connectionClose isApp ec ft reason => ec < 2 ^ 62 && (isApp || ft < 2 ^ 62) && (!isApp || ft = 0) && reason.length < 2 ^ 62
+  | .datagram _ data => data.length < 2 ^ 62
   | .ackFrequency seq th mad rt => seq < 2 ^ 62 && th < 2 ^ 62 && rt < 2 ^ 62 && mad % 1000 = 0 && mad / 1000 < 2 ^ 62 && mad < 2 ^ 63
   | .ping => true
   | .handshakeDone => true
